@@ -23,6 +23,8 @@ const QSETS: &[QuerySet] = &[
     QuerySet { id: "lst", lang: "lst", tags: include_str!("lst_tags.scm"), locals: include_str!("lst_locals.scm") },
     // the same tags without a locals query (tags_pattern_index = 0)
     QuerySet { id: "stmt0", lang: "stmt", tags: include_str!("stmt_tags.scm"), locals: "" },
+    // nested names (queue order by (end, start)) and names spanning rows
+    QuerySet { id: "stmtn", lang: "stmt", tags: include_str!("stmtn_tags.scm"), locals: "" },
 ];
 
 fn strip_id(re: &str) -> usize {
@@ -107,51 +109,61 @@ fn emit_case(out: &mut impl Write, env: &Env, qid: &str, cid: &str, src: &[u8]) 
         }
         writeln!(out, "{line}").unwrap();
     }
-    // the real thing
-    let mut ctx = TagsContext::new();
+    // the real thing (a panic of the real code becomes a `tagerr` line: a concrete failing input)
     let mut ntags = 0;
     let mut had_err = false;
-    match ctx.generate_tags(&env.config, src, None) {
-        Ok((iter, has_error)) => {
-            had_err = has_error;
-            for t in iter {
-                match t {
-                    Ok(t) => {
-                        ntags += 1;
-                        let docs = match &t.docs {
-                            None => "-".to_string(),
-                            Some(d) => format!("={}", hex(d.as_bytes())),
-                        };
-                        writeln!(
-                            out,
-                            "tag {} {} {} {} {} {} {} {} {} {} {} {} {} {} {}",
-                            t.range.start,
-                            t.range.end,
-                            t.name_range.start,
-                            t.name_range.end,
-                            t.line_range.start,
-                            t.line_range.end,
-                            t.span.start.row,
-                            t.span.start.column,
-                            t.span.end.row,
-                            t.span.end.column,
-                            t.utf16_column_range.start,
-                            t.utf16_column_range.end,
-                            t.is_definition as u8,
-                            t.syntax_type_id,
-                            docs
-                        )
-                        .unwrap();
-                    }
-                    Err(e) => {
-                        writeln!(out, "tagerr {e}").unwrap();
+    let res = std::panic::catch_unwind(std::panic::AssertUnwindSafe(|| {
+        let mut lines: Vec<String> = Vec::new();
+        let mut had = false;
+        let mut ctx = TagsContext::new();
+        match ctx.generate_tags(&env.config, src, None) {
+            Ok((iter, has_error)) => {
+                had = has_error;
+                for t in iter {
+                    match t {
+                        Ok(t) => {
+                            let docs = match &t.docs {
+                                None => "-".to_string(),
+                                Some(d) => format!("={}", hex(d.as_bytes())),
+                            };
+                            lines.push(format!(
+                                "tag {} {} {} {} {} {} {} {} {} {} {} {} {} {} {}",
+                                t.range.start,
+                                t.range.end,
+                                t.name_range.start,
+                                t.name_range.end,
+                                t.line_range.start,
+                                t.line_range.end,
+                                t.span.start.row,
+                                t.span.start.column,
+                                t.span.end.row,
+                                t.span.end.column,
+                                t.utf16_column_range.start,
+                                t.utf16_column_range.end,
+                                t.is_definition as u8,
+                                t.syntax_type_id,
+                                docs
+                            ));
+                        }
+                        Err(e) => lines.push(format!("tagerr {e}")),
                     }
                 }
             }
+            Err(e) => lines.push(format!("tagerr {e}")),
         }
-        Err(e) => {
-            writeln!(out, "tagerr {e}").unwrap();
+        (lines, had)
+    }));
+    match res {
+        Ok((lines, had)) => {
+            had_err = had;
+            for l in &lines {
+                if l.starts_with("tag ") {
+                    ntags += 1;
+                }
+                writeln!(out, "{l}").unwrap();
+            }
         }
+        Err(_) => writeln!(out, "tagerr panic").unwrap(),
     }
     writeln!(out, "run").unwrap();
     (ntags, had_err)
@@ -253,6 +265,9 @@ fn expr(rng: &mut Rng, depth: usize, s: &mut String) {
         }
         _ => {
             s.push('(');
+            if rng.chance(1, 8) {
+                s.push_str("\n  "); // a parenthesized expression spanning rows (a multi-row name in query set stmtn)
+            }
             expr(rng, depth - 1, s);
             s.push(')');
         }
@@ -484,6 +499,7 @@ fn gen_bytes(rng: &mut Rng) -> Vec<u8> {
 
 fn main() {
     limit_resources();
+    std::panic::set_hook(Box::new(|_| {})); // panics of the code under test are reported per case
     let args: Vec<String> = std::env::args().collect();
     let out_path = args.get(1).expect("usage: c18 <ops-file> [--spec file]").clone();
     let mut out = std::io::BufWriter::new(std::fs::File::create(&out_path).unwrap());
@@ -521,7 +537,7 @@ fn main() {
     let (n_stmt, n_lst, n_fn) = if thorough { (4000, 1500, 40000) } else { (260, 120, 3000) };
     for k in 0..(n_stmt + n_lst) {
         let (qid, (src, class)) = if k < n_stmt {
-            (if k % 9 == 8 { "stmt0" } else { "stmt" }, gen_stmt(&mut rng))
+            (if k % 9 == 8 { "stmt0" } else if k % 9 == 4 || k % 9 == 6 { "stmtn" } else { "stmt" }, gen_stmt(&mut rng))
         } else {
             ("lst", gen_lst(&mut rng))
         };
